@@ -151,6 +151,11 @@ class UnOp:
         self.op, self.a = op, a
 
 
+class Subslice:
+    def __init__(self, base, lo, hi):
+        self.base, self.lo, self.hi = base, lo, hi  # hi: '' (to the end), 'k' (absolute, arrays) or '-k' (from the end)
+
+
 class RefOf:
     def __init__(self, place, mut):
         self.place, self.mut = place, mut
@@ -289,9 +294,15 @@ def _place(s):
             if m:
                 p = Index(p, Local(int(m.group(1))))
             else:
-                m = re.match(r"(\d+) of (\d+)$", inner)
+                m = re.match(r"(-?\d+) of (\d+)$", inner)
+                m2 = re.match(r"(\d+):(-?\d*)$", inner) or re.match(r"(\d+)\.\.(\d+)$", inner)
                 if m:
+                    # ConstantIndex: `[k of min_len]` from the front, `[-k of min_len]` from the end (slice patterns)
                     p = Index(p, int(m.group(1)))
+                elif m2:
+                    # Subslice `[from:to]` / `[from:-to]` (rest patterns on slices), `[from..to]` (on arrays: a by-value sub-array)
+                    p = Subslice(p, int(m2.group(1)), m2.group(2))
+                    p.array = ".." in inner
                 else:
                     raise ParseError("bad index: " + inner)
             rest = r[end + 1:]
@@ -577,12 +588,14 @@ def parse_mir(text):
             consts[m.group(1).split("::")[-1]] = m.group(3).strip()
             i += 1
             continue
-        cm = re.match(r"^const (.*::promoted\[\d+\]): (.*) = \{\s*$", line)
+        cm = re.match(r"^(?:const|static(?: mut)?) (.*): (.*) = \{\s*$", line)
         if cm or (line.startswith("fn ") and line.rstrip().endswith("{")):
             if cm:
+                # promoted constants and const / static items whose initialiser has a body: parameterless functions
                 f = Function(cm.group(1), cm.group(1))
                 f.ret = cm.group(2)
                 f.is_promoted = True
+                f.is_const_item = "promoted[" not in cm.group(1)
             else:
                 header = line.rstrip()[3:-1].strip()
                 f = _parse_header(header)
@@ -607,7 +620,9 @@ def parse_mir(text):
                     if lm:
                         f.locals[int(lm.group(1))] = lm.group(2)
                 i += 1
-            funcs.append(f)
+            if not any(g.name == f.name and g.params == f.params and not getattr(g, "is_promoted", False) for g in funcs[-4:]) \
+                    or getattr(f, "is_promoted", False):
+                funcs.append(f)
         i += 1
     return funcs, consts
 
